@@ -81,7 +81,18 @@ def run(ctx: Ctx):
     )
 
 
+def _case_of(payload):
+    if "case" in payload:
+        return payload["case"]
+    m = payload.get("model")
+    return m.get("case") if isinstance(m, dict) else None
+
+
 def replay(payload):
+    if _case_of(payload) is None:
+        print("REPLAY: obligation", payload.get("obligation"), "-", payload.get("formula"), "| solver:", str(payload.get("solver_output"))[:500])
+        return 1
+    payload = {**payload, "case": _case_of(payload)}
     from ..rtc.reduce_case import check_case
 
     r = check_case(payload["case"], refusal_ok=True)
